@@ -480,7 +480,7 @@ Section Defs.
     { destruct Hold as (_&_&_&_&_&_&Rt). unfold rec_ret in Rt. destruct (k_ret (p_calls s t)); [|reflexivity].
       assert (k_pc (p_calls s t) = PRet) by (apply Rt; discriminate). congruence. }
     assert (Hpc : k_pc (p_calls s t) <> PIdle) by congruence.
-    destruct (st0 && negb (Nat.eqb (pred (p_waits s)) 0)); inversion H; subst; clear H.
+    destruct (st0 && negb (Nat.eqb (p_waits s) 1)); inversion H; subst; clear H.
     - call_b s t (with_pc (p_calls s t) PBgAfter).
       + apply (rec_ok_ctl (p_calls s t)); cbn; auto; try congruence; close_rec.
         all: try solve [intros _; right; right; right; left; eauto].
@@ -591,7 +591,7 @@ Section Defs.
     intros I H. cbn [pstep] in H.
     destruct (k_pc (p_calls s t)) eqn:Epc; try discriminate.
     destruct (g_kind g); [discriminate|].
-    destruct (k_done (p_calls s t) && k_ctxput (p_calls s t) && (g_putfail0 g || negb (N.eqb (p_st s) 0))); [|discriminate].
+    destruct (k_done (p_calls s t) && k_ctxput (p_calls s t)); [|discriminate].
     pose proof (b_rec s I t) as Hold.
     assert (Hpc : k_pc (p_calls s t) <> PIdle) by congruence.
     inversion H; subst; clear H.
@@ -740,15 +740,18 @@ Section Defs.
     destruct (k_pc (p_calls s t)) eqn:Epc; try discriminate.
     inversion H; subst; clear H.
     assert (Hns : forall u, sync_user (p_calls s u) = false).
-    { destruct (p_bg s) eqn:Eb; [apply (a_e2 s IA Eb)|]. apply (a_ba s IA); [eauto|assumption]. }
+    { apply (tok_no_sync_other s t IA); unfold tokc, sync_user; now rewrite Epc. }
     assert (I1 : InvB (do_background s)).
     { apply invb_do_background; [assumption|apply (bgoff s IA)|]. intros u Hu. apply reading_sync in Hu. rewrite Hns in Hu. discriminate. }
     pose proof (b_rec s I t) as Hold.
+    assert (Hret : k_ret (p_calls s t) = None).
+    { destruct Hold as (_&_&_&_&_&_&Rt). unfold rec_ret in Rt. destruct (k_ret (p_calls s t)); [|reflexivity].
+      assert (k_pc (p_calls s t) = PRet) by (apply Rt; discriminate). congruence. }
     assert (Hpc : k_pc (p_calls s t) <> PIdle) by congruence.
-    apply (invb_call (do_background s) (set_call (do_background s) t (with_ret (p_calls s t) (k_res (p_calls s t)))) t (with_ret (p_calls s t) (k_res (p_calls s t))) I1 (or_introl eq_refl) eq_refl eq_refl eq_refl eq_refl (fun u => eq_refl)).
+    apply (invb_call (do_background s) (set_call (do_background s) t (with_pc (p_calls s t) (PDecr false))) t (with_pc (p_calls s t) (PDecr false)) I1 (or_introl eq_refl) eq_refl eq_refl eq_refl eq_refl (fun u => eq_refl)).
     - apply (rec_ok_ctl (p_calls s t)); cbn; auto; try congruence; close_rec.
-      all: try solve [intros r K; inversion K; subst; right; right; split; [reflexivity|]; right; right; right; right; assumption].
-      all: try solve [unfold rec_ret; cbn; intros _; reflexivity].
+      all: try solve [intros _; right; right; right; left; eauto].
+      all: try solve [unfold rec_ret; cbn; rewrite Hret; intros K; contradiction].
     - intros [k K]; discriminate.
     - rewrite calls_do_background. intros [k K]; rewrite Epc in K; discriminate.
     - rewrite calls_do_background. intros sl Ho; exfalso; apply (not_owner_pc _ _ Ho); rewrite Epc; discriminate.
@@ -1666,7 +1669,6 @@ Section Defs.
     - eapply stepb_blind; eauto; constructor.
   Qed.
 
-  Hypothesis Hg : g_kind g = Ring \/ g_putfail0 g = false.
 
   Theorem inv_run sched : forall s s', InvA s -> InvB s -> prun g sched s = Some s' -> InvA s' /\ InvB s'.
   Proof.
